@@ -195,6 +195,23 @@ def run_call(suite, entry, args):
             if suite == "basic":
                 exp = False  # repeated message
             got = BL.verdict(C.AggregateVerify, pks, [MSGS[0], MSGS[0]], sig)
+        elif entry == "FastAggregateVerify:cancelling-keys":
+            # pk and -pk: the aggregated key is the identity -> False for every signature, no exception
+            sig, = args
+            pk = MB.sk_to_pk(SK[0])
+            exp = False
+            got = BL.verdict(C.FastAggregateVerify, [pk, bytes([pk[0] ^ 0x20]) + pk[1:]], MSGS[0], sig)
+        elif entry == "FastAggregateVerify:cancelling-torsion":
+            # two keys outside the subgroup whose cofactor components cancel (a*G + T, b*G - T), with
+            # the honest signature of the aggregate secret a + b: every key must be valid on its own
+            which, = args
+            T = BL.torsion_points("E1")[which]
+            G = params.bls_g1()
+            a_, b_ = SK[1], SK[2]
+            pks = [MB.g1_bytes(E1.add(E1.mul(G, a_), T)), MB.g1_bytes(E1.add(E1.mul(G, b_), E1.neg(T)))]
+            sig = MB.sign(suite, (a_ + b_) % R_, MSGS[0])
+            exp = False
+            got = BL.verdict(C.FastAggregateVerify, pks, MSGS[0], sig)
         else:  # FastAggregateVerify
             pks, mi, sig = args
             ok = all(MB.key_validate(k) for k in pks) and MB.sig_in_subgroup(sig) and len(pks) >= 1
@@ -239,9 +256,11 @@ def _resolve(a, env):
         pk, sig = ka[a["ki"]][1], sa[a["si"]][1]
         lbl = "key[%s] sig[%s]" % (ka[a["ki"]][0], sa[a["si"]][0])
         return ((pk, a["mi"], sig) if entry == "Verify" else (pk, sig)), lbl
-    if entry == "AggregateVerify:cancelling-keys":
+    if entry in ("AggregateVerify:cancelling-keys", "FastAggregateVerify:cancelling-keys"):
         sa = sig_alphabet(env, thorough, "basic", 0)
         return (sa[a["si"]][1],), "cancelling-keys sig[%s]" % sa[a["si"]][0]
+    if entry == "FastAggregateVerify:cancelling-torsion":
+        return (a["which"],), "cancelling-torsion[%s]" % a["which"]
     # aggregate entry points: list of n, bad item at position pos
     n, pos = a["n"], a["pos"]
     pks = [MB.sk_to_pk(SK[i]) for i in range(n)]
@@ -369,6 +388,10 @@ def run(ctx):
     for n in (1, 2):
         for ki in kapp:
             plan.append(("pop", "FastAggregateVerify", {"n": n, "pos": 0, "ki": None, "si": None, "append": ki}))
+    for si in pick(sa, ["valid", "point:identity", "flags=110:x1=0:x0=only-flag-c", "len96:zeros", "point:-S", "seeded"]):
+        plan.append(("pop", "FastAggregateVerify:cancelling-keys", {"si": si}))
+    for which in ("T_3", "T_11", "cofactor-component"):
+        plan.append(("pop", "FastAggregateVerify:cancelling-torsion", {"which": which}))
     for ki in kreps:
         plan.append(("pop", "PopVerify", {"ki": ki, "si": 0, "mi": 0}))
     for si in sreps:
@@ -388,6 +411,8 @@ def run(ctx):
         per = 40 if entry in ("KeyValidate",) else (6 if entry in ("AggregateVerify", "FastAggregateVerify") else 24)
         if entry == "AggregateVerify:cancelling-keys":
             per = 12
+        if entry.startswith("FastAggregateVerify:"):
+            per = 3
         for i in range(0, len(calls), per):
             tasks.append(("calls", {"suite": suite, "entry": entry, "calls": calls[i:i + per], "sample": i == 0}))
     ctx.bounds["calls"] = len(plan)
